@@ -125,9 +125,23 @@ fn run_seq(
     assumptions: Vec<String>,
     out: Option<&Path>,
 ) -> i32 {
+    run_seq_with(prop, tier, cfgs, params, assumptions, out, |_| json!({}))
+}
+
+#[allow(clippy::too_many_arguments)]
+fn run_seq_with(
+    prop: &str,
+    tier: &str,
+    cfgs: Vec<Config>,
+    params: SeqParams,
+    assumptions: Vec<String>,
+    out: Option<&Path>,
+    extra: impl FnOnce(&mut crate::report::Collector) -> Value,
+) -> i32 {
     let t0 = Instant::now();
-    let (stats, col) = explore_all(&cfgs, &params);
-    let coverage = seq_coverage(&stats, &params, json!({}));
+    let (stats, mut col) = explore_all(&cfgs, &params);
+    let extra = extra(&mut col);
+    let coverage = seq_coverage(&stats, &params, extra);
     eprintln!(
         "[{prop}] configs={} states={} transitions={} depth={} capped={} panics={} secs={:.1}",
         stats.configs,
@@ -177,6 +191,7 @@ pub fn run(prop: &str, tier: &str, out: Option<&Path>) -> i32 {
                 3
             };
             let params = SeqParams {
+                prop: prop.to_string(),
                 profile: Profile::c02(),
                 depth,
                 max_states: if thorough { 3_000_000 } else { 400_000 },
@@ -211,13 +226,25 @@ pub fn run(prop: &str, tier: &str, out: Option<&Path>) -> i32 {
             frames.dedup();
             let cfgs = configs(&frames, &cl, &BOTH);
             let params = SeqParams {
+                prop: prop.to_string(),
                 profile: Profile::c09(),
-                depth: if thorough { 4 } else { 3 },
-                max_states: if thorough { 2_000_000 } else { 150_000 },
+                depth: match (thorough, small_geometry()) {
+                    (true, true) => 5,
+                    (true, false) => 4,
+                    (false, true) => 4,
+                    (false, false) => 2,
+                },
+                max_states: if thorough { 3_000_000 } else { 250_000 },
                 probes: Probes::default(),
-                max_secs: if thorough { 900.0 } else { 30.0 },
+                max_secs: if thorough { 900.0 } else { 25.0 },
             };
-            run_seq(prop, tier, cfgs, params, seq_assume, out)
+            let mut f0 = frames.clone();
+            f0.insert(0, 0);
+            run_seq_with(prop, tier, cfgs, params, seq_assume, out, |col| {
+                let (builds, calls) = crate::extras::c09_constructions(&f0, &cl, col);
+                json!({"construction_modes_enumerated": builds, "calls_after_construction": calls,
+                    "construction_rule": "every frame count of the list (and 0) x classing x {FreeAll, AllocAll, Recover over zero/ones/free/alloc bytes, None}, then one call of every kind"})
+            })
         }
         _ => {
             eprintln!("unknown property {prop}");
